@@ -292,7 +292,7 @@ func (app *App) addPrefixToRoute(prefix string, route *Route) *Route {
 	// derive everything from the prefixed path exactly as register does
 	route.Params = parseRoute(prefixedPath, app.customConstraints...).params
 	route.root = route.path == "/"
-	route.star = route.path == "/*"
+	route.star = prettyPath == "/*"
 
 	return route
 }
@@ -362,7 +362,8 @@ func (app *App) register(methods []string, pathRaw string, group *Group, handler
 		}
 
 		isUse := method == methodUse
-		isStar := pathClean == "/*"
+		// an escaped star ("/\*") is the literal path "/*", not the catch-all
+		isStar := pathPretty == "/*"
 		isRoot := pathClean == "/"
 
 		route := Route{
